@@ -5,6 +5,9 @@ Property theorems only.  Index theorems hold over every commutative star-ring `R
 `dim_in`, `dim_out` and numbers of Kraus terms.  Conjugation of the model (`conj`) is `star` here.
 -/
 import NumqiProofs.Channel
+import NumqiProofs.ChannelBloch
+import NumqiProofs.ChannelSpectral
+import NumqiProps.C16
 import Mathlib.Analysis.Real.Sqrt
 import Mathlib.Data.Complex.Basic
 
@@ -204,6 +207,105 @@ theorem amplitude_damping_tp_real (p : ℝ) (hp0 : 0 ≤ p) (hp1 : p ≤ 1) (i j
     krausGram 2 2 (amplitudeDampingKraus (√(1 - p)) (√p)) i j = if i = j then 1 else 0 :=
   amplitude_damping_tp _ _ (star_trivial _) (star_trivial _)
     (by rw [Real.mul_self_sqrt (by linarith), Real.mul_self_sqrt hp0]; ring) i j hi hj
+
+/-! ## the Bloch map (`choi_op_to_bloch_map`), on top of the Gell-Mann theorems of C16 -/
+
+section bloch
+open Numqi.Gellmann Matrix
+
+/-- **`choi_op_to_bloch_map` returns the affine map of Bloch vectors**: for every `dim_in, dim_out ≥ 1`, every Hermitian
+Choi operator `C` (Hermiticity-preserving map, in particular every channel), every Hermitian input `ρ` of trace one and every
+component `ν`: `r(Φρ)_ν = Σ_μ A[ν,μ]·r(ρ)_μ + b_ν`, where `r = dm_to_gellmann_basis`, `Φρ = apply_choi_op(C, ρ)` and
+`(A, b) = choi_op_to_bloch_map(C)`.  Scalars: any `Sin`, `Sout` satisfying the relations of the exact square roots for
+`din`, `dout` (ℂ with the real roots: `C16.exists_valid_complex`). -/
+theorem bloch_map_affine {din dout : ℕ} (Sin Sout : Scalars R) (hSin : Sin.Valid din) (hSout : Sout.Valid dout)
+    (hdin : 1 ≤ din) (hdout : 1 ≤ dout) (C ρ : ℕ → ℕ → R) (hC : ∀ x y, star (C x y) = C y x)
+    (hρH : (Matrix.of (fun i j : Fin din => ρ i.val j.val))ᴴ = Matrix.of (fun i j : Fin din => ρ i.val j.val))
+    (hρtr : ∑ l : Fin din, ρ l.val l.val = 1) {ν : ℕ} (hν : ν < dout * dout - 1) :
+    (dmToVec Sout dout (fun a b : Fin dout => applyChoi din dout C ρ a.val b.val) false).getD ν 0
+      = (∑ μ ∈ range (din * din - 1),
+          blochA Sin Sout din dout C ν μ * (dmToVec Sin din (fun i j : Fin din => ρ i.val j.val) false).getD μ 0)
+        + blochB Sin Sout din dout C ν :=
+  bloch_affine Sin Sout hSin hSout hdin hdout C ρ hρH hρtr
+    (fun μ ν' hμ hν' => blochX_real Sin Sout hSin hSout hdin hdout C hC μ ν' hμ hν') hν
+
+/-- the complex-linear core without any Hermiticity assumption: every Gell-Mann coefficient of the output is the stated
+combination of the coefficients of the input (before `.real`) -/
+theorem bloch_map_coefficients {din dout : ℕ} (Sin Sout : Scalars R) (hSin : Sin.Valid din) (hSout : Sout.Valid dout)
+    (hdin : 1 ≤ din) (hdout : 1 ≤ dout) (C ρ : ℕ → ℕ → R) {ν : ℕ} (hν : ν < dout * dout) :
+    (analysis Sout dout (fun a b : Fin dout => applyChoi din dout C ρ a.val b.val)).getD ν 0
+      = ∑ μ ∈ range (din * din), ((analysis Sin din (fun i j : Fin din => ρ i.val j.val)).getD μ 0 * 2)
+          * blochX Sout dout (blochTmp1 Sin din dout C) μ ν :=
+  coef_applyChoi Sin Sout hSin hSout hdin hdout C ρ hν
+
+/-- the Choi operator of any Kraus set satisfies the Hermiticity hypothesis of `bloch_map_affine` -/
+theorem bloch_hypothesis_of_kraus (N dout : ℕ) (K : ℕ → ℕ → ℕ → R) (x y : ℕ) :
+    star (krausToChoi N dout K x y) = krausToChoi N dout K y x := choi_hermitian N dout K x y
+
+/-- non-vacuity: valid scalars exist over ℂ for every pair of dimensions -/
+example : ∃ Sin Sout : Scalars ℂ, Sin.Valid 3 ∧ Sout.Valid 5 :=
+  ⟨complexScalars 3, complexScalars 5, C16.exists_valid_complex (by norm_num), C16.exists_valid_complex (by norm_num)⟩
+
+end bloch
+
+/-! ## ranges at the eigenvalue level (the `eigvalsh` / `eigh` contract: the spectrum is a probability vector)
+
+`entropySpec`, `fidelitySpec`, `relEntropySpec` are what `get_von_neumann_entropy`, `get_fidelity`, `get_relative_entropy` compute
+after the eigen-decomposition; for commuting (simultaneously diagonal) states that is the whole function.  The statements are
+for the exact clipping level `eps = 0`; the code clips at machine epsilon (`entropy_clipped_nonneg` covers the lower bound
+with clipping).  **The data-processing inequalities for non-commuting states remain probe-only.** -/
+
+section spectral
+open Real
+
+/-- **`0 ≤ S(ρ) ≤ log d`** for every probability vector of eigenvalues. -/
+theorem entropy_range {d : ℕ} (hd : 0 < d) (p : Fin d → ℝ) (hp : ∀ i, 0 ≤ p i) (hsum : ∑ i, p i = 1) :
+    0 ≤ entropySpec 0 (List.ofFn p) ∧ entropySpec 0 (List.ofFn p) ≤ Real.log d := by
+  rw [entropySpec_zero p hp]
+  exact ⟨entropy_nonneg' p hp hsum, entropy_le_log' hd p hp hsum⟩
+
+/-- the lower bound survives the clipping `maximum(EVL, eps)` of the code (any `0 ≤ eps ≤ 1`, eigenvalues `≤ 1`) -/
+theorem entropy_clipped_nonneg (eps : ℝ) (heps0 : 0 ≤ eps) (heps1 : eps ≤ 1) (evl : List ℝ) (h1 : ∀ x ∈ evl, x ≤ 1) :
+    0 ≤ entropySpec eps evl := entropySpec_clipped_nonneg eps heps0 heps1 evl h1
+
+/-- **fidelity of commuting states** is `(Σ √(p_i q_i))²`, hence **symmetric** … -/
+theorem fidelity_commuting_symm {d : ℕ} (p q : Fin d → ℝ) (hp : ∀ i, 0 ≤ p i) (hq : ∀ i, 0 ≤ q i) :
+    fidelitySpec (List.ofFn p) (List.ofFn q) = (∑ i, √(p i) * √(q i)) ^ 2 ∧
+    fidelitySpec (List.ofFn p) (List.ofFn q) = fidelitySpec (List.ofFn q) (List.ofFn p) := by
+  refine ⟨fidelitySpec_eq p q hp hq, ?_⟩
+  rw [fidelitySpec_eq p q hp hq, fidelitySpec_eq q p hq hp]
+  congr 1
+  exact sum_congr rfl fun i _ => mul_comm _ _
+
+/-- … and **in `[0,1]`** for probability vectors (Cauchy–Schwarz). -/
+theorem fidelity_commuting_range {d : ℕ} (p q : Fin d → ℝ) (hp : ∀ i, 0 ≤ p i) (hq : ∀ i, 0 ≤ q i)
+    (hsp : ∑ i, p i = 1) (hsq : ∑ i, q i = 1) :
+    0 ≤ fidelitySpec (List.ofFn p) (List.ofFn q) ∧ fidelitySpec (List.ofFn p) (List.ofFn q) ≤ 1 := by
+  rw [fidelitySpec_eq p q hp hq]
+  have h0 : 0 ≤ ∑ i, √(p i) * √(q i) := sum_nonneg fun i _ => mul_nonneg (Real.sqrt_nonneg _) (Real.sqrt_nonneg _)
+  have h1 := bc_le_one p q hp hq hsp hsq
+  exact ⟨sq_nonneg _, by nlinarith⟩
+
+/-- **relative entropy of commuting states is non-negative** (Gibbs' inequality), full-rank second argument. -/
+theorem relative_entropy_commuting_nonneg {d : ℕ} (p q : Fin d → ℝ) (hp : ∀ i, 0 ≤ p i) (hq : ∀ i, 0 < q i)
+    (hsp : ∑ i, p i = 1) (hsq : ∑ i, q i = 1) : 0 ≤ relEntropySpec 0 (List.ofFn p) (List.ofFn q) := by
+  unfold relEntropySpec
+  rw [listSum_zip_ofFn p q (fun pq => pq.1 * Analytic.log (Analytic.max 0 pq.2)),
+    listSum_ofFn p (fun x => Analytic.max 0 x * Analytic.log (Analytic.max 0 x)), ← sum_neg_distrib, ← sum_add_distrib]
+  have hterm : ∀ i, p i - q i ≤ -(p i * Analytic.log (Analytic.max 0 (q i)))
+      + Analytic.max 0 (p i) * Analytic.log (Analytic.max 0 (p i)) := by
+    intro i
+    show p i - q i ≤ -(p i * Real.log (max 0 (q i))) + max 0 (p i) * Real.log (max 0 (p i))
+    rw [max_eq_right (hq i).le, max_eq_right (hp i)]
+    have := gibbs_term (p i) (q i) (hp i) (hq i)
+    linarith
+  calc (0 : ℝ) = ∑ i, (p i - q i) := by rw [sum_sub_distrib, hsp, hsq, sub_self]
+    _ ≤ _ := sum_le_sum fun i _ => hterm i
+
+/-- non-vacuity of the spectral hypotheses -/
+example : ∃ p : Fin 2 → ℝ, (∀ i, 0 ≤ p i) ∧ ∑ i, p i = 1 := ⟨fun _ => 1 / 2, fun _ => by norm_num, by simp⟩
+
+end spectral
 
 /-- non-vacuity: the index hypotheses are satisfiable and the maps are not constant (ℤ with trivial star) -/
 example : krausToChoi 1 2 (fun _ a i => ((10 * a + i + 1 : ℕ) : ℤ)) (1 * 2 + 1) (0 * 2 + 1) = 12 * 11 := by
